@@ -215,6 +215,16 @@ def do_loadfault(env, op, pending):
         if not im.modules:
             return "none"
         im.modules[0].uuid = im.modules[0].uuid[:15] if f == "uuid-too-short" else im.modules[0].uuid + b"\0"
+    elif f in ("contents-exceed-size", "contents-exceed-zero-size"):
+        ivs = [v for m in im.modules for x in m.sections for v in x.byte_intervals]
+        if not ivs:
+            return "none"
+        if f == "contents-exceed-zero-size":
+            ivs[0].size = 0
+            ivs[0].contents = b"\x01"
+        else:
+            ivs[0].size = 4
+            ivs[0].contents = b"\x01" * 8
     elif f == "bad-magic":
         data = protomsg.file_bytes(im, magic=b"GTIRX")
     elif f == "bad-version-byte":
